@@ -241,6 +241,114 @@ func tallyLog(log []script.Entry, vid string) *tally {
 	return t
 }
 
+// parkRequest sends m without waiting for its reply and waits until it is
+// parked inside the implementation (b.Hold). A request the framework answers
+// itself (unknown fid, rules) is part of the history: its reply is consumed
+// and nil is returned.
+func parkRequest(k *ctl, S *script.S, vs *srvh.Session, vid string, m *ref9p.Msg, b script.Behav) (*liveFlight, error) {
+	if m == nil {
+		return nil, nil
+	}
+	m.Tag = vs.C.NextTag()
+	lf := &liveFlight{idx: -1, m: m, key: script.Key(ref9p.Canon(m, vs.C.Dotu)), tag: m.Tag, who: reqWho(vid, m.Tag), state: "executing"}
+	b.Hold = true
+	S.Set(lf.key, b)
+	if err := vs.C.Send(m); err != nil {
+		return nil, &hangError{"harness: sending a request to be parked: " + err.Error()}
+	}
+	entered := false
+	ok := waitFor(hangT, func() bool {
+		for _, e := range S.Log() {
+			if e.Kind == "enter" && e.Conn == vid && e.Tag == lf.tag {
+				entered = true
+				lf.incs = []int{e.Inc}
+				return true
+			}
+		}
+		return k.count(lf.who, "respond.posted") > 0
+	})
+	if !ok {
+		return nil, &hangError{"before the cut: request " + lf.key + " neither reached the implementation nor was answered"}
+	}
+	if entered {
+		return lf, nil
+	}
+	S.Release(lf.key)
+	return nil, awaitReply(k, vs, lf)
+}
+
+func awaitReply(k *ctl, vs *srvh.Session, lf *liveFlight) error {
+	r, _, err := vs.C.Recv()
+	if err == rawc.ErrTimeout {
+		return &hangError{"before the cut: no reply to " + lf.key}
+	}
+	if err != nil {
+		return fmt.Errorf("before the cut: %s: %v", lf.key, err)
+	}
+	if r.Tag != lf.tag {
+		return fmt.Errorf("before the cut: waiting for the reply to %s (tag %d) the client received %s tag %d", lf.key, lf.tag, ref9p.TypeName(r.Type), r.Tag)
+	}
+	if !k.wait(lf.who, "respond.unlinked", 1, hangT) {
+		return &hangError{"before the cut: request " + lf.key + " was answered but never left Respond"}
+	}
+	return nil
+}
+
+// unparkRequest releases a parked request of the history and waits until the
+// client has its reply and the request has left the framework.
+func unparkRequest(k *ctl, S *script.S, vs *srvh.Session, lf *liveFlight) error {
+	S.Release(lf.key)
+	if err := awaitReply(k, vs, lf); err != nil {
+		return err
+	}
+	tag := lf.tag
+	ok := waitFor(hangT, func() bool {
+		for _, e := range S.Log() {
+			if e.Kind == "done" && e.Tag == tag && e.Key == lf.key {
+				return true
+			}
+		}
+		return false
+	})
+	if !ok {
+		return &hangError{"before the cut: released request " + lf.key + " never finished inside the implementation"}
+	}
+	return nil
+}
+
+func parkedOn(hparks []*liveFlight, fid uint32, inc int) bool {
+	for _, hp := range hparks {
+		if hp.m.Fid == fid && (inc == 0 || len(hp.incs) == 0 || hp.incs[0] == inc) {
+			return true
+		}
+	}
+	return false
+}
+
+// lightStep: one awaited request of the history whose only effect the harness
+// needs is the reference fid table's (the per-step oracle of srvh.Step assumes
+// that nothing else is executing on the connection).
+func lightStep(S *script.S, vs *srvh.Session, vid string, m *ref9p.Msg, b script.Behav) error {
+	key := script.Key(ref9p.Canon(m, vs.C.Dotu))
+	S.Set(key, b)
+	before := len(S.Log())
+	r, err := vs.C.RPC(m)
+	if err == rawc.ErrTimeout {
+		return &hangError{"before the cut: no reply to " + key}
+	}
+	if err != nil {
+		return fmt.Errorf("before the cut: %s: %v", key, err)
+	}
+	inc, newinc := 0, 0
+	for _, e := range S.Log()[before:] {
+		if e.Kind == "enter" && e.Conn == vid && e.Tag == m.Tag {
+			inc, newinc = e.Inc, e.NewInc
+		}
+	}
+	vs.M.Apply(m, r, inc, newinc)
+	return nil
+}
+
 func runScript(c *Case, res *result) (err error) {
 	k := newCtl()
 	uninstall := k.install()
@@ -270,6 +378,7 @@ func runScript(c *Case, res *result) (err error) {
 	vid := script.ConnID("c11-vi")
 	var end *xport.End
 	var vs *srvh.Session
+	var hparks []*liveFlight // requests of the history that are still parked
 	if kf == 0 {
 		end = sv.Dial("c11-vi")
 		defer end.Close()
@@ -287,6 +396,47 @@ func runScript(c *Case, res *result) (err error) {
 			var b script.Behav
 			if a.Err {
 				b.Err, b.Ecode = "scripted failure", 5
+			}
+			switch a.Kind {
+			case "park":
+				hp, err := parkRequest(k, S, vs, vid, a.msg(i), b)
+				if err != nil {
+					return err
+				}
+				if hp != nil {
+					hp.f = &Flight{Kind: a.Op}
+					hparks = append(hparks, hp)
+				}
+				continue
+			case "unpark":
+				if len(hparks) == 0 {
+					continue
+				}
+				j := a.Sel % len(hparks)
+				hp := hparks[j]
+				hparks = append(hparks[:j:j], hparks[j+1:]...)
+				if f := vs.M.Fids[hp.m.Fid]; f != nil && f.Inc != 0 && len(hp.incs) > 0 && f.Inc != hp.incs[0] {
+					res.labels = append(res.labels, "parked request released before the cut after its fid number was clunked and bound again")
+				} else if f == nil {
+					res.labels = append(res.labels, "parked request released before the cut after its fid was clunked")
+				} else {
+					res.labels = append(res.labels, "parked request released before the cut")
+				}
+				if err := unparkRequest(k, S, vs, hp); err != nil {
+					return err
+				}
+				continue
+			case "clunk", "remove":
+				// the fid goes away while an earlier request on it is still parked:
+				// its FidDestroy is due only when that request returns, which
+				// srvh.Step (one request at a time) would call a violation
+				if f := vs.M.Fids[a.Fid]; f != nil && parkedOn(hparks, a.Fid, f.Inc) {
+					if err := lightStep(S, vs, vid, a.msg(i), b); err != nil {
+						return err
+					}
+					res.labels = append(res.labels, a.Kind+" of a fid an earlier request is still parked on")
+					continue
+				}
 			}
 			if _, err := vs.Step(a.msg(i), b); err != nil {
 				var h *srvh.Hang
@@ -317,6 +467,9 @@ func runScript(c *Case, res *result) (err error) {
 			m := c.Flights[i].resolve(1000+i, vs.M.Fids)
 			named[m.Fid], named[m.Newfid], named[m.Afid] = true, true, true
 		}
+		for _, hp := range hparks {
+			named[hp.m.Fid] = true
+		}
 		for _, u := range FUniverse {
 			if f := vs.M.Fids[u]; f != nil && f.Kind != model.KAuth && !named[u] {
 				m := &ref9p.Msg{Type: ref9p.Tstat, Fid: u}
@@ -336,6 +489,11 @@ func runScript(c *Case, res *result) (err error) {
 	// ---- requests that are still executing at the cut
 	var live []*liveFlight
 	creating, using, killing, keys := map[uint32]bool{}, map[uint32]bool{}, map[uint32]bool{}, map[string]bool{}
+	for _, hp := range hparks {
+		// (conservative: the number may name a newer fid by now)
+		using[hp.m.Fid] = true
+		keys[hp.key] = true
+	}
 	if vs != nil {
 		for i := range c.Flights {
 			f := &c.Flights[i]
@@ -468,6 +626,12 @@ func runScript(c *Case, res *result) (err error) {
 		if i >= 0 && i < len(live) && live[i].state == "executing" && !live[i].late {
 			parked = append(parked, live[i])
 		}
+	}
+	// requests of the history that are still parked are executing at the cut
+	// too; they are released after the drawn ones
+	for _, hp := range hparks {
+		live = append(live, hp)
+		parked = append(parked, hp)
 	}
 	nlate := 0
 	for _, lf := range live {
@@ -737,7 +901,19 @@ func runScript(c *Case, res *result) (err error) {
 		return out
 	})
 	if !okb {
-		return fmt.Errorf("%v after the bystander's own disconnect: goroutines left: %s", quiesce, strings.Join(leftBy, " | "))
+		// the deadline only detects hangs: look once more, a verdict needs a
+		// goroutine that is still inside go9p
+		closedNow := k.count(connWho(by.id), "close.exit") > 0
+		leftBy = shorts(libGors(), allowed)
+		switch {
+		case closedNow && len(leftBy) == 0:
+			res.labels = append(res.labels, "bystander's own disconnect finished only after the quiescence deadline (starved machine)")
+		case !closedNow && len(leftBy) == 0:
+			hx.Inconclusive(fmt.Sprintf("%v after the bystander's own disconnect its Conn.close has not finished, yet no goroutine is inside go9p", quiesce))
+			return nil
+		default:
+			return fmt.Errorf("%v after the bystander's own disconnect (Conn.close finished: %v): goroutines left: %s", quiesce, closedNow, strings.Join(leftBy, " | "))
+		}
 	}
 	t = tallyLog(S.Log(), vid)
 	if n := t.closed[by.id]; n != 1 {
